@@ -188,6 +188,25 @@ def file_numbering(kinds):
     return m, pubs, privs
 
 
+def large_trace(n, p, npub=3):
+    """deterministic trace with n constraints (sizes around byte / chunk boundaries matter for encoders):
+    x_k * x_{k-1} = y_k with a late public value and a few adversarial coefficients"""
+    tr = [["pub", 5], ["priv", 3], ["priv", -4]]
+    nv = 3
+    for k in range(n):
+        tr.append(["priv", (k * 7 + 1) % 1000])
+        nv += 1
+        a = ["add", ["var", nv - 1], ["mul", ["one"], k % 5]]
+        bb = ["sub", ["var", nv - 2], ["mul", ["var", nv - 3], (p - 1) if k % 3 == 0 else 2]]
+        c = ["mul", ["var", (k * 13) % nv], -(k + 1)]
+        tr.append(["con", a, bb, c])
+        if k in (n // 2, n - 2) and npub:
+            tr.append(["pub", k])
+            nv += 1
+            npub -= 1
+    return tr
+
+
 # ---------------------------------------------------------------------------
 # hypothesis strategies for traces
 
